@@ -138,9 +138,22 @@ func MakeRW(shape string, core *CoreRW) (w http.ResponseWriter, canFlush bool) {
 		return RWUnwrap{RWUnwrap{RWBoth{core}}}, true
 	case "unwrap-none":
 		return RWUnwrap{RWNone{core}}, false
+	case "unwrap12-flusherror":
+		core.CanFailFlush = true
+		var w http.ResponseWriter = RWFlushError{core}
+		for i := 0; i < 12; i++ {
+			w = RWUnwrap{w}
+		}
+		return w, true
+	case "unwrap40-flusher":
+		var w http.ResponseWriter = RWFlusher{core}
+		for i := 0; i < 40; i++ {
+			w = RWUnwrap{w}
+		}
+		return w, true
 	}
 	panic("unknown shape " + shape)
 }
 
 // RWShapes lists all shapes.
-var RWShapes = []string{"flusher", "flusherror", "both", "none", "unwrap-flusher", "unwrap-flusherror", "unwrap2-both", "unwrap-none"}
+var RWShapes = []string{"flusher", "flusherror", "both", "none", "unwrap-flusher", "unwrap-flusherror", "unwrap2-both", "unwrap-none", "unwrap12-flusherror", "unwrap40-flusher"}
